@@ -195,7 +195,7 @@ def c09_select(d: int, pos: int, param: int, route: int, has_l: bool, l: int, ha
     out = outer.get_sql(pctx)
     vals = pctx.parameterizer.values
     note("sql", out)
-    note("values", repr(vals))
+    note("values", list(vals))  # (no repr here: repr() of a symbolic value forks per character class)
     ok = check_param(out, vals, d, prefix, suffix, has_l, l, has_o, o, ordered, False)
     return verdict(ok, "c09_select", **args)
 
@@ -234,7 +234,7 @@ def c09_setop(d: int, param: int, has_l: bool, l: int, has_o: bool, o: int, orde
     out = so.get_sql(pctx)
     vals = pctx.parameterizer.values
     note("sql", out)
-    note("values", repr(vals))
+    note("values", list(vals))  # (no repr here: repr() of a symbolic value forks per character class)
     ok = check_param(out, vals, d, base, "", has_l, l, has_o, o, ordered, True)
     return verdict(ok, "c09_setop", **args)
 
